@@ -79,7 +79,7 @@ func (k c14Case) tags() []string {
 }
 
 // c14Words enumerates the client programs of length <= maxLen admitted by the
-// property: start with S or Q; at most one Q, P, X; no S after Q; no R after
+// property: the request side (S or Q) is used before the response side (R, P), a cancel may come at any position including first; at most one Q, P, X; no S after Q; no R after
 // P; either contains X or ends with P preceded by Q.
 func c14Words(maxLen int) []string {
 	var out []string
@@ -95,6 +95,7 @@ func c14Words(maxLen int) []string {
 		if len(w) == maxLen {
 			return
 		}
+		started := strings.ContainsAny(w, "SQ") // the request side has been started
 		for _, op := range "SQRPX" {
 			switch op {
 			case 'S':
@@ -106,11 +107,11 @@ func c14Words(maxLen int) []string {
 					continue
 				}
 			case 'R':
-				if w == "" || strings.Contains(w, "P") {
+				if !started || strings.Contains(w, "P") {
 					continue
 				}
 			case 'P':
-				if w == "" || strings.Contains(w, "P") {
+				if !started || strings.Contains(w, "P") {
 					continue
 				}
 				// without cancellation the response side is closed after the request side
@@ -118,12 +119,9 @@ func c14Words(maxLen int) []string {
 					continue
 				}
 			case 'X':
-				if w == "" || strings.Contains(w, "X") {
+				if strings.Contains(w, "X") {
 					continue
 				}
-			}
-			if w == "" && op != 'S' && op != 'Q' {
-				continue
 			}
 			if strings.HasSuffix(w, "P") && !strings.Contains(w, "X") && op != 'X' {
 				// after Q..P only a late cancel may follow
